@@ -125,9 +125,9 @@ func genMut(t *rapid.T, stream []byte, lists []esl.List) Mut {
 }
 
 func genCase(t *rapid.T) Case {
-	if gen.Chance(t, "giant", 1, 600) {
+	if gen.Chance(t, "giant", 1, 1000) {
 		// tens of MiB, whole or cut somewhere: nothing is dropped silently at any size
-		c := Case{Giant: rapid.IntRange(1, 3).Draw(t, "giantkind")}
+		c := Case{Giant: rapid.SampledFrom([]int{1, 2, 2, 2, 3}).Draw(t, "giantkind")}
 		if rapid.Bool().Draw(t, "giantcut") {
 			c.Muts = []Mut{{Kind: "truncate", Cut: rapid.IntRange(1<<20, 40<<20).Draw(t, "cut")}}
 		}
@@ -423,8 +423,10 @@ func checkCase(c Case) error {
 	if err := checkRoutes(in, class); err != nil {
 		return err
 	}
-	if err := checkReaderFaults(in); err != nil {
-		return err
+	if c.Giant == 0 { // (a fault at every list boundary of a 34 MiB stream is 140 full decodes)
+		if err := checkReaderFaults(in); err != nil {
+			return err
+		}
 	}
 	if c.AllCuts && len(in) <= 1500 {
 		for cut := 0; cut < len(in); cut++ {
